@@ -38,6 +38,15 @@ def step (s : S) (ws : List String) : S × String :=
     match id.toNat? with
     | some id => after s (s.r.delObj id)
     | none => (s, "bad-op")
+  -- writes timed against the refresher (refreshing is not modelled: oracle-only cases)
+  | ["putheld", id, data] =>
+    match id.toNat?, data.toNat? with
+    | some id, some d => if s.oracleOnly then after s (s.r.userPut id d) else (s, "bad-op")
+    | _, _ => (s, "bad-op")
+  | ["delheld", id] =>
+    match id.toNat? with
+    | some id => if s.oracleOnly then after s (s.r.delObj id) else (s, "bad-op")
+    | none => (s, "bad-op")
   | ["touch", id] =>
     match id.toNat? with
     | some id => after s (s.r.touch id)
